@@ -15,7 +15,7 @@
 from torch import device as torch_device
 
 from .nn import QModuleMixin, quantize_module
-from .tensor import qtypes
+from .tensor import qint8, qtypes
 
 
 __all__ = ["quantize", "freeze", "requantize"]
@@ -52,14 +52,16 @@ def requantize(model, state_dict):
 
     # empty the model params by moving to the meta device, then quantize
     model.to(torch_device("meta"))
-    # Some modules are only quantized when their activations are: recover that information from the state_dict
-    # (the actual qtypes of each module are restored when loading the state_dict)
-    activations = None
+    # Quantize exactly the modules that were quantized when the state_dict was saved: they have a weight_qtype entry
+    modules = [m for name, m in model.named_modules() if f"{name}.weight_qtype" in state_dict]
+    # Some modules are only quantized when their activations are: always request activations to recreate them
+    # (the actual qtypes of each module, possibly none, are restored when loading the state_dict)
+    activations = qint8
     for name, value in state_dict.items():
         if name.endswith("activation_qtype") and value != "none":
             activations = qtypes[value]
             break
-    quantize(model, activations=activations)
+    quantize(model, modules=modules, activations=activations)
 
     # move the quantized but empty model to cpu then load the state_dict
     model.to_empty(device=torch_device("cpu"))
